@@ -25,8 +25,15 @@ ASSUMPTIONS = [
     "duplicate-key detection reads vyxal/elements.py with ast (declared static step)",
     "elements.yaml is read by a line-based subset parser (no yaml library offline)",
 ]
-MIN_COUNTERS = {"roundtrip_2byte": 65536, "keys_tokenised": 300, "yaml_entries": 300}
+MIN_COUNTERS = {"roundtrip_2byte": 65536, "keys_tokenised": 300, "yaml_entries": 300, "keys_in_context": 3000}
 
+import string  # noqa: E402
+
+# (text, token values it lexes to): a key written right after it must still be its own token
+CONTEXT_PREFIXES = [
+    ("→v", ["v"]), ("←v", ["v"]), ("→", [""]), ("12", ["12"]), ("`ab`", ["ab"]), ("‛ab", ["ab"]), ("\\c", ["c"]),
+    ("⁺a", ["a"]), ("«ab«", ["ab"]), ("»ab»", ["ab"]), ("kA", ["kA"]), ("+", ["+"]), ("]", ["]"]), ("#c\n", []),
+]
 STRUCT_SYNTAX = set("[](){}@;λƛ'µ⟨⟩|")  # grouped by the parser, not looked up
 
 
@@ -116,6 +123,17 @@ def run_unit(unit):
             toks2 = lexer.tokenise("1" + key + " +")
             if [t.value for t in toks2] != ["1", key, " ", "+"]:
                 res["violations"].append(V("key_not_one_token", f"{kind} key {key!r} in context lexes as {toks2!r}", unit_kind=k, subject=key))
+            # ... and directly after every other kind of token (no separating space)
+            for pre, pre_vals in CONTEXT_PREFIXES:
+                if key[0] in "0123456789.°" and pre_vals[-1][-1:] in "0123456789.°":
+                    continue
+                if pre[0] in "→←" and (key[0] in string.ascii_letters + "_"):
+                    continue  # ASCII letters and _ continue a variable name by definition
+                toks3 = lexer.tokenise(pre + key)
+                c["keys_in_context"] = c.get("keys_in_context", 0) + 1
+                if [t.value for t in toks3] != pre_vals + [key]:
+                    res["violations"].append(V("key_not_one_token", f"{kind} key {key!r} written directly after {pre!r} lexes as {toks3!r}", unit_kind=k, subject=key, after=pre))
+                    break
             if kind == "element":
                 # reachable: the parser must hand it to the table as an element
                 tree = parse.parse(lexer.tokenise(key))
